@@ -700,8 +700,8 @@ theorem count_lt_sorted (l : List Rat) (hs : l.Pairwise (· ≤ ·)) (p : Rat) :
 theorem noteMargin_panicked (rs : RS) (m : Rat) : (rs.noteMargin m).panicked = rs.panicked := by
   unfold RS.noteMargin; simp only []; split <;> split <;> rfl
 
-theorem foldl_noteMargin_panicked (l : List Rat) (p : Rat) (rs : RS) :
-    (l.foldl (fun r v => r.noteMargin (v - p)) rs).panicked = rs.panicked := by
+theorem foldl_noteMargin_panicked (l : List Rat) (p t : Rat) (rs : RS) :
+    (l.foldl (fun r v => r.noteMargin ((v - p) / t)) rs).panicked = rs.panicked := by
   induction l generalizing rs with
   | nil => rfl
   | cons a t ih => simp only [List.foldl_cons, ih, noteMargin_panicked]
